@@ -480,6 +480,7 @@ func (p *parser) InstantiateGenericFunction(genericFunc *ast.FuncDecl, genericTy
 		tokens:                genericFunc.Generic.Tokens,
 		errorHandler:          errorCollector.GetHandler(),
 		module:                genericFunc.Mod,
+		predefinedModules:     p.predefinedModules, // import statements in the body resolve through the shared module map
 		genericModule:         genericModule,
 		instantiationDepth:    p.instantiationDepth + 1,
 		instantiationOverflow: p.instantiationOverflow,
